@@ -209,6 +209,8 @@ class ExprMixin:
                         return k(st, self.eval_const_expr(r[1], r[2].module))
             if self.find_contract_for_ext(base.cls, attr) is not None:
                 return k(st, VPy("bound", attr, base))
+            if attr == "get" and base.cls in self.reg.models:
+                return k(st, VPy("bound", attr, base))
             raise Unsupported(f"attribute {base.cls}.{attr} has no model ({where})")
         if isinstance(base, VPy):
             if base.what == "module":
@@ -233,6 +235,9 @@ class ExprMixin:
             if base.what == "super":
                 return k(st, VPy("superbound", attr, base.obj))
         if isinstance(base, (VBytes, VStr, VList, VDict, VDeque, VSet, VSeq, VInt, VFloat)):
+            pytype = {VBytes: bytes, VStr: str, VList: list, VDict: dict, VInt: int, VFloat: float}.get(type(base))
+            if pytype is not None and not hasattr(pytype, attr):
+                return self.raise_(st, "AttributeError", f"{pytype.__name__}.{attr} at {where}")
             return k(st, VPy("bound_builtin", attr, base))
         if isinstance(base, VExc):
             if attr == "args":
@@ -573,6 +578,9 @@ class ExprMixin:
             s2 = st.assume(has)
             outs += k(s2, self.dict_get(s2, base, kt))
             return outs
+        if isinstance(base, VRef) and isinstance(idx, VStr) and idx.lit is not None \
+                and self.field_decl(base.cls, idx.lit) is not None:
+            return k(st, self.read_field(st, base, idx.lit))
         if isinstance(base, VPy) and base.what == "excargs":
             return k(st, VAny(self.arbitrary(INT, "excarg")))
         if isinstance(base, (VBytes, VList, VDeque, VSeq)):
